@@ -70,10 +70,45 @@ def with_time_limit(fn, seconds):
 CASE_LIMIT_S = 20.0
 
 
+# atom names are arbitrary strings: a consistent renaming of the atoms in K and in f never changes an answer.  The names
+# are chosen to meet the library's own vocabulary: Python's True/False, near-keywords, and (object modes only) reserved words
+REN_TEXT = [{'p': 'True'}, {'q': 'False'}, {'p': 'False', 'q': 'True'}, {'p': 'q', 'q': 'p'}, {'p': 'true_', 'q': 'not_q'},
+            {'p': 'Ap', 'q': 'EXq'}, {'p': 'None', 'q': 'fairness'}, {'p': 'P', 'q': 'p'}]
+REN_OBJ = [{'p': 'A', 'q': 'U'}, {'p': 'true', 'q': 'false'}, {'p': 'or', 'q': 'not'}, {'p': 'p q', 'q': ''}, {'p': '0', 'q': '1'}]
+PLAIN_NAMES = ('p', 'q', 'r')
+
+
+def _atoms_of(f, acc):
+    if f[0] == 'ap':
+        acc.add(f[1])
+    else:
+        for x in f[1:]:
+            if isinstance(x, (tuple, list)):
+                _atoms_of(x, acc)
+    return acc
+
+
+def _rename(f, ren):
+    if f[0] == 'ap':
+        return ('ap', ren.get(f[1], f[1]))
+    return (f[0],) + tuple(_rename(x, ren) if isinstance(x, (tuple, list)) else x for x in f[1:])
+
+
 def mc_event(case):
     """case: {tid, logic, K, f, mode, naming, shuf (int|None), cert (int|None), F (list|None)}"""
     rng = random.Random(case['shuf']) if case.get('shuf') is not None else None
-    K = case['K']
+    K0 = K = case['K']
+    f0 = fr = case['f']
+    t0 = case.get('tid', 0)
+    ren = case.get('ren')
+    if ren is None and t0 % 9 == 4:
+        names = _atoms_of(f0, set()) | {a for l in K0['L'] for a in l}
+        if names <= set(PLAIN_NAMES):
+            pool = REN_TEXT if case.get('mode', 'obj') == 'text' else REN_TEXT + REN_OBJ
+            ren = pool[(t0 // 9) % len(pool)]
+    if ren:
+        K = dict(K0, L=[sorted(ren.get(a, a) for a in l) for l in K0['L']])
+        fr = _rename(f0, ren)
     # initial states are irrelevant to the semantics of modelcheck: vary them (none / some / all)
     t = case.get('tid', 0)
     S0 = case.get('S0')
@@ -81,15 +116,17 @@ def mc_event(case):
         S0 = [] if t % 3 == 0 else [i for i in range(K['n']) if (i + t) % 3 == 0] if t % 3 == 1 else [t % K['n']]
     k, name, index_of = mk_kripke(K, case.get('naming', 'int'), rng=rng, S0=S0, relabel=case.get('relabel', t % 7 == 5))
     try:
-        formula = build_formula(case['logic'], case['f'], case.get('mode', 'obj'))
+        formula = build_formula(case['logic'], fr, case.get('mode', 'obj'))
     except Exception as ex:       # constructing a well-formed formula must not fail
         out = ('exc', 'construct:' + type(ex).__name__, str(ex)[:200])
     else:
         F = case.get('F')
         Fa = None if F is None else [set(name(i) for i in P) for P in F]
         out = with_time_limit(lambda: call_mc(case['logic'], k, formula, F=Fa), case.get('limit', CASE_LIMIT_S))
-    ev = {'tid': case['tid'], 'logic': case['logic'], 'n': K['n'], 'R': K['R'], 'L': K['L'],
-          'f': case['f'], 'out': project_result(out, index_of)}
+    ev = {'tid': case['tid'], 'logic': case['logic'], 'n': K0['n'], 'R': K0['R'], 'L': K0['L'],
+          'f': f0, 'out': project_result(out, index_of)}
+    if ren:
+        ev['ren'] = ren
     if case.get('cert'):
         ev['cert'] = case['cert']
     if case.get('F') is not None:
